@@ -1,5 +1,6 @@
 (* C02 property theorems (theorems only). *)
-From Wz Require Import lib.Bytes lib.Utf8 C01.Model C01.Hold C01.Render C01.HeaderBlock C02.Gen C02.Model C02.Proofs C02.Encoder C02.Roundtrip.
+From Wz Require C06.LibPy C06.Model.
+From Wz Require Import lib.Bytes lib.Utf8 C01.Model C01.Hold C01.Render C01.HeaderBlock C02.Gen C02.Model C02.Proofs C02.Encoder C02.Roundtrip C02.Identity.
 Open Scope N_scope.
 
 (* URL-encoded forms and query strings round-trip for every list of Unicode pairs: repeated keys,
@@ -72,3 +73,29 @@ Example C02_roundtrip_example :
   wf_body [66; 110; 100] LBcrlf ([] ++ CRLF) (map to_rpart parts) (CRLF ++ []) = true.
 Proof. vm_compute. split; reflexivity. Qed.
 Print Assumptions C02_roundtrip_example.
+
+(* part identity: from the header block the encoder writes for a part, the decoder's header parser
+   (model C01/HeaderBlock.v, compared with MultipartDecoder._parse_headers on every run) and the
+   option-header parser (model C06/Model.v, compared with http.parse_options_header on every run)
+   recover exactly form-data, name = the part's name and filename = its file name (or none), for
+   every name / file name the header syntax can carry unescaped (any Unicode text without a double
+   quote, a backslash, CR, LF or the literal %22; empty file names and names with blanks, ';', '='
+   included).  Together with C02_sansio_roundtrip: kind, name, filename and payload of every part
+   survive encode -> decode under every chunking. *)
+Theorem C02_part_identity : forall p hs,
+  part_names_ok p = true ->
+  forallb clean_line (extra_lines (ep_hdrs p)) = true ->
+  parse_lines (extra_lines (ep_hdrs p)) = Some hs ->
+  parse_headers (hdr_block p) = Some ((t_cd, cd_value p) :: hs) /\
+  C06.Model.parse_options_header (cd_value p) = C06.LibPy.Ok (t_form_data, cd_options p).
+Proof. exact part_identity. Qed.
+Print Assumptions C02_part_identity.
+
+Example C02_part_identity_example :
+  let p := mkep [102; 239; 101; 108; 100; 32; 8364] (Some [97; 32; 98; 59; 32; 99; 61; 100; 32; 233; 46; 116; 120; 116])
+                [([67; 111; 110; 116; 101; 110; 116; 45; 84; 121; 112; 101], [116; 101; 120; 116; 47; 112; 108; 97; 105; 110])] [] [] in
+  part_names_ok p = true /\ forallb clean_line (extra_lines (ep_hdrs p)) = true /\
+  parse_lines (extra_lines (ep_hdrs p))
+  = Some [([67; 111; 110; 116; 101; 110; 116; 45; 84; 121; 112; 101], [116; 101; 120; 116; 47; 112; 108; 97; 105; 110])].
+Proof. exact part_identity_example. Qed.
+Print Assumptions C02_part_identity_example.
